@@ -43,6 +43,19 @@ CHECKS = {
  'C12': ('exploration', 'exhaustive key x successor pairing at intake; trace checker T3 + model on cyclic histories',
          'All pairings of revealed key and next commitment under both hash algorithms and four protocol algorithm lists (exhaustive), creates/recovers with equal commitments; commitment cycles of length 1-5 in every anchoring order with replays, under the online trace checker and step budget.',
          'Exhaustive only over the 4-key universe and cycle length <= 5.', 'DESIGN.md 5/C12'),
+
+ 'C13': ('exploration', 'write/read-back round-trip monitor over the real OperationHandler, gzip and OperationProvider with uniquely marked operations',
+         'All type sequences up to length 4 (exhaustive) on distinct DIDs and with repeated suffixes at every position pair, single-type / single-operation / maximum-size / expiring batches on a virtual clock and random mixes: files written by PrepareTxnFiles must read back as exactly one operation per distinct suffix with JSON-equal request, embedded anchor origin and the stated order, and included+deferred+expired must account for every queued operation exactly once.',
+         'File size limits are set generously here (limits are C14); the all-expired batch (anchor "0.<uri>") is exercised and counted, not a violation.', 'DESIGN.md 5/C13'),
+ 'C14': ('exploration', 'mutation fuzz of real batch file sets with result-invariant oracle and must-reject/must-accept boundary cases, in crash-isolated workers under ulimit -v',
+         'File sets produced by the real handler are decoded and mutated structurally and bytewise; stored-block gzip gives exact compressed sizes (limit / limit+1) and padded content exact decompressed sizes (limit*factor / +1), also from alternate sources; 30 consistency violations, 21 malformed anchor strings and CAS read-failure plans have fixed expected outcomes; every success must satisfy count, distinct-suffix, validated-delta and parseable-signed-data invariants.',
+         'Validated deltas are checked with the library validators and an independent predicate; cross-consistency of reveal values is a resolution-time rule and is not demanded here.', 'DESIGN.md 5/C14'),
+ 'C17': ('exploration', 'purity / determinism / atomicity relations and independent ordered-set model on the real DocumentComposer, in crash-isolated workers',
+         'Documents reached by random patch sequences and lists of 1-6 patches (failing k-th patch for every k, replace on populated documents, adds of existing ids at non-last positions): input untouched, two calls agree, error => no document, list == one-at-a-time, result == model; PatchesFromDocument round trip on generated documents including unusual member names.',
+         'Ordered-set semantics are compared on validator-accepted lists; null, absent and [] are the same empty section.', 'DESIGN.md 5/C17'),
+ 'C18': ('exploration', 'independent rule oracle (accepted => rules, built violations => rejected) + crash-isolated application with per-call watchdog + section-unchanged effect monitor',
+         'Every structural rule violated singly and pairwise in add-*/replace patches, action enablement matrix, all six RFC 6902 operations x 41 pointer shapes for path and from x value variants (exhaustive for single operations), aliasing chains and random lists, random mutations of valid patches; accepted deltas are applied to three documents: never panic / crash / hang, and JSON patches leave the key and service sections unchanged.',
+         'Key-type/purpose table and the limits 50/30 frozen from statement and pinned tree; URI validity = net/url.ParseRequestURI; watchdog 30 s per call.', 'DESIGN.md 5/C18'),
 }
 
 RACE = {'C15', 'C16', 'C20'}
